@@ -443,3 +443,61 @@ Proof.
   rewrite (ef_all_exact stream le is64 T phoff phentsize HT phs Hf Hat).
   rewrite spec_items_addr. reflexivity.
 Qed.
+
+(* ================================================================== free header fields of a segment *)
+(* data() and get_interp_name() see the header only through p_offset / p_filesz *)
+Theorem segment_data_header_free : forall stream ph ph',
+  rec_z ph "p_offset" = rec_z ph' "p_offset" -> rec_z ph "p_filesz" = rec_z ph' "p_filesz" ->
+  Segment_data stream ph = Segment_data stream ph'.
+Proof. intros stream ph ph' Ho Hs. unfold Segment_data. rewrite Ho, Hs. reflexivity. Qed.
+
+Theorem interp_name_header_free : forall stream ph ph',
+  rec_z ph "p_offset" = rec_z ph' "p_offset" ->
+  InterpSegment_get_interp_name stream ph = InterpSegment_get_interp_name stream ph'.
+Proof. intros stream ph ph' Ho. unfold InterpSegment_get_interp_name. rewrite Ho. reflexivity. Qed.
+
+Lemma parse_phdr_in_image le is64 h A R :
+  phdr_fits le is64 h = true ->
+  struct_parse_at (gen_Elf_Phdr le is64) (A ++ enc_phdr le is64 h ++ R) (zlen A)
+  = Ok (annot_layout (spec_Elf_Phdr le is64) (phdr_vals is64 h)).
+Proof.
+  intros Hf. unfold struct_parse_at. rewrite drop_at_app, phdr_decode by exact Hf. reflexivity.
+Qed.
+
+(* file level: the image holds the segment's bytes and, anywhere, the encoded program header [h];
+   every field of [h] other than p_offset / p_filesz (p_type, p_flags, p_vaddr, p_paddr, p_memsz -
+   smaller than, equal to or larger than p_filesz, zero - and p_align) is universally quantified *)
+Theorem segment_data_file_exact : forall le is64 h (pre body tail A R : list Z) img,
+  phdr_fits le is64 h = true ->
+  p_offset h = zlen pre -> p_filesz h = zlen body ->
+  img = pre ++ body ++ tail ->
+  img = A ++ enc_phdr le is64 h ++ R ->
+  segment_data_at img le is64 (zlen A) = Ok body.
+Proof.
+  intros le is64 h pre body tail A R img Hf Ho Hs Hi1 Hi2.
+  unfold segment_data_at.
+  assert (Hp : struct_parse_at (gen_Elf_Phdr le is64) img (zlen A)
+               = Ok (annot_layout (spec_Elf_Phdr le is64) (phdr_vals is64 h)))
+    by (rewrite Hi2; apply parse_phdr_in_image; exact Hf).
+  rewrite Hp. cbn [bind]. unfold Segment_data.
+  destruct (phdr_fields_all le is64 h) as (_ & _ & H3 & _ & _ & H6 & _ & _).
+  rewrite H3, H6, Ho, Hs, Hi1. f_equal. apply segment_data_exact.
+Qed.
+
+(* the interpreter path: p_filesz is free as well (the string is the C string at p_offset) *)
+Theorem interp_name_file_exact : forall le is64 h (pre s tail A R : list Z) img,
+  phdr_fits le is64 h = true ->
+  p_offset h = zlen pre -> no_nul s = true ->
+  img = pre ++ s ++ 0 :: tail ->
+  img = A ++ enc_phdr le is64 h ++ R ->
+  interp_name_at img le is64 (zlen A) = Ok s.
+Proof.
+  intros le is64 h pre s tail A R img Hf Ho Hn Hi1 Hi2.
+  unfold interp_name_at.
+  assert (Hp : struct_parse_at (gen_Elf_Phdr le is64) img (zlen A)
+               = Ok (annot_layout (spec_Elf_Phdr le is64) (phdr_vals is64 h)))
+    by (rewrite Hi2; apply parse_phdr_in_image; exact Hf).
+  rewrite Hp. cbn [bind]. unfold InterpSegment_get_interp_name.
+  destruct (phdr_fields_all le is64 h) as (_ & _ & H3 & _).
+  rewrite H3, Ho, Hi1. apply interp_name_exact. exact Hn.
+Qed.
